@@ -7,7 +7,7 @@ ids = ["C%02d" % i for i in range(1, 21)]
 checks, na = [], []
 for pid in ids:
     c = claims.get(pid)
-    if not c or not os.path.isdir(os.path.join(V, "harness", "props", pid.lower())):
+    if not c or not c.get("ready") or not os.path.isdir(os.path.join(V, "harness", "props", pid.lower())):
         na.append({"property_id": pid, "reason": (c or {}).get("na_reason", "check not built yet in this round; the design in DESIGN.md section 4 applies, nothing about the property puts it out of reach of generated search")})
         continue
     checks.append({
